@@ -1363,7 +1363,13 @@ func (w *c05World) checkSigs(lb *order.Batch, sigs order.BatchSignature,
 			bad("signature released for an account whose output the batch tx does not spend", "C05/sig-no-input")
 			continue
 		}
-		var wit wire.TxWitness
+		// mkWit assembles the full witness for spending the account
+		// output in `tx` from the trader's released signature and the
+		// auctioneer's. For a p2wsh account the auctioneer (who is the
+		// party that could try to alter the transaction) signs `tx`
+		// itself afresh; the MuSig2 signature is combined once, over
+		// the verified batch transaction.
+		var mkWit func(tx *wire.MsgTx) (wire.TxWitness, error)
 		if acct.Version >= account.VersionTaprootEnabled {
 			r.Count("sigcheck/taproot")
 			s := sessions[d.AccountKeyRaw]
@@ -1382,7 +1388,9 @@ func (w *c05World) checkSigs(lb *order.Batch, sigs order.BatchSignature,
 					"C05/sig-invalid")
 				continue
 			}
-			wit = poolscript.SpendMuSig2Taproot(full)
+			mkWit = func(*wire.MsgTx) (wire.TxWitness, error) {
+				return poolscript.SpendMuSig2Taproot(full), nil
+			}
 		} else {
 			r.Count("sigcheck/p2wsh")
 			ws, err := poolscript.AccountWitnessScript(acct.Expiry, acct.TraderKey.PubKey,
@@ -1393,20 +1401,34 @@ func (w *c05World) checkSigs(lb *order.Batch, sigs order.BatchSignature,
 			tweak := poolscript.AuctioneerKeyTweak(acct.TraderKey.PubKey, acct.AuctioneerKey,
 				acct.BatchKey, acct.Secret)
 			out, _ := acct.Output()
-			as, err := w.auct.SignOutputRaw(ctx, lb.BatchTX, []*lndclient.SignDescriptor{{
-				KeyDesc:       keychain.KeyDescriptor{PubKey: w.auctKey.PubKey()},
-				SingleTweak:   tweak,
-				WitnessScript: ws,
-				Output:        out,
-				HashType:      txscript.SigHashAll,
-				InputIndex:    idx,
-			}}, nil)
-			if err != nil {
-				continue
+			// the trader's signature carries the sighash flag it was
+			// actually made with (from the signer's log)
+			ht := txscript.SigHashAll
+			for _, q := range w.signer.log {
+				if q.kind == "raw" && q.key == d.AccountKeyRaw {
+					ht = q.hashType
+				}
 			}
-			wit = poolscript.SpendMultiSig(ws,
-				append(append([]byte{}, sig...), byte(txscript.SigHashAll)),
-				append(as[0], byte(txscript.SigHashAll)))
+			mkWit = func(tx *wire.MsgTx) (wire.TxWitness, error) {
+				as, err := w.auct.SignOutputRaw(ctx, tx, []*lndclient.SignDescriptor{{
+					KeyDesc:       keychain.KeyDescriptor{PubKey: w.auctKey.PubKey()},
+					SingleTweak:   tweak,
+					WitnessScript: ws,
+					Output:        out,
+					HashType:      txscript.SigHashAll,
+					InputIndex:    idx,
+				}}, nil)
+				if err != nil {
+					return nil, err
+				}
+				return poolscript.SpendMultiSig(ws,
+					append(append([]byte{}, sig...), byte(ht)),
+					append(as[0], byte(txscript.SigHashAll))), nil
+			}
+		}
+		wit, err := mkWit(lb.BatchTX)
+		if err != nil {
+			continue
 		}
 		if err := run(lb.BatchTX, idx, wit); err != nil {
 			bad(fmt.Sprintf("released signature of account %d does not validly spend its output in the verified batch tx: %v", a.id, err),
@@ -1433,7 +1455,11 @@ func (w *c05World) checkSigs(lb *order.Batch, sigs order.BatchSignature,
 		for name, alt := range alts {
 			t := lb.BatchTX.Copy()
 			alt(t)
-			if err := run(t, idx, wit); err == nil {
+			awit, err := mkWit(t)
+			if err != nil {
+				continue
+			}
+			if err := run(t, idx, awit); err == nil {
 				bad(fmt.Sprintf("released signature of account %d is still valid after altering the batch tx (%s)", a.id, name),
 					"C05/sig-valid-for-altered-tx")
 			} else {
